@@ -46,6 +46,24 @@ def native_flags_probe():
     return bad, 4
 
 
+def native_mssm_force_probe():
+    """real CLI, example.gm2 with a tachyonic point (Mu = 1e8), minimal output: force_output=0 must not print a number,
+    force_output=1 must print one"""
+    exe = build.build_cli()
+    src = open(os.path.join(REPO, 'input', 'example.gm2')).read()
+    out = {}
+    for force in (0, 1):
+        text = src + 'Block GM2CalcInput\n     4     100000000   # Mu\nBlock GM2CalcConfig\n     0     0\n     3     %d\n' % force
+        r = subprocess.run([exe, '--gm2calc-input-file=-'], input=text.encode(), capture_output=True, timeout=120)
+        out[force] = (r.returncode, r.stdout.decode(errors='replace').strip())
+    bad = []
+    if out[0][1] != '':
+        bad.append('force_output=0 prints %r for a point with tachyons' % out[0][1][:40])
+    if out[1][1] == '':
+        bad.append('force_output=1 prints nothing for a point with tachyons (exit %d)' % out[1][0])
+    return bad, 2
+
+
 def thdm_reader(chk, mod):
     fns = find(mod, 'THDM_reader::operator()')
     if not fns:
@@ -156,12 +174,23 @@ def mssm_run(chk, mod):
         for nm, fld in want.items():
             tag = 'flags:mssm#%d:%s' % (i, nm)
             if nm not in seen:
-                chk.violation(tag, 'C15:flags:mssm:%s' % nm, 'MSSMNoFV_setup::run returns without calling %s on the model' % nm, None)
-                continue
-            r, m = chk.prove(tag, p.pc + [as_bool(seen[nm]) != as_bool(f[fld])], family='flags-reach-model',
-                             sample={'obligation': 'MSSMNoFV_setup::run: %s receives options.%s' % (nm, fld)})
-            if r == 'sat':
-                chk.violation(tag, 'C15:flags:mssm:%s' % nm, 'MSSMNoFV_setup::run: %s receives a value different from options.%s' % (nm, fld), None)
+                what = 'MSSMNoFV_setup::run returns without calling %s on the model' % nm
+            else:
+                r, m = chk.prove(tag, p.pc + [as_bool(seen[nm]) != as_bool(f[fld])], family='flags-reach-model',
+                                 sample={'obligation': 'MSSMNoFV_setup::run: %s receives options.%s' % (nm, fld)})
+                if r != 'sat':
+                    continue
+                what = 'MSSMNoFV_setup::run: %s receives a value different from options.%s' % (nm, fld)
+            # replay with the real program (force_output is observable from outside; verbose output by C14's stdout probe)
+            if nm == 'do_force_output':
+                bad, n = native_mssm_force_probe()
+                chk.traces_validated += n
+                if bad:
+                    chk.violation(tag, 'C15:flags:mssm:%s' % nm, what + '; real program: ' + '; '.join(bad),
+                                  '#!/bin/sh\ncd %s && exec python3-vt -m props.replay_c15 mssmflags\n' % VERIF)
+                    continue
+            chk.record(tag, 'gap', what + ' - not observable / not reproduced with the real program', family='flags-reach-model')
+            chk.not_covered.append('MSSM flag glue: ' + what)
 
 
 def run(chk):
